@@ -198,7 +198,9 @@ func runC19(r *rt.Run, tier string) {
 	if victim >= 0 {
 		fired := false
 		for _, op := range fs.History {
-			if op.Fault == "err" {
+			// (only a failing open or read obliges the parser; a failing close of a
+			// file that was read completely may be ignored)
+			if op.Fault == "err" && (op.Op == "read" || op.Op == "open") {
 				fired = true
 			}
 		}
